@@ -54,6 +54,22 @@ fn id_form(id: &str) -> &'static str {
 
 // ------------------------------------------------------------------------------------------------
 /// C06: every open order can be cancelled by its owner and expired by an executor, in full.
+/// "The request succeeds" includes the messages it returns: the marker module carries out a brokered transfer
+/// only for a restricted marker, so an exit whose payout is a marker transfer of any other denomination fails
+/// as a whole on chain (the simulator applies it all the same, so that C10 can judge the mechanism).
+fn unpayable_exit(w: &World, o: &Outcome, mode: &str, st: &mut Stats, out: &mut Vec<Viol>) {
+    if let Outcome::Ok { xfers, .. } = o {
+        st.count("C06", "exit_payout_messages_checked_against_the_marker_module");
+        for x in xfers {
+            if let Xfer::Marker { denom, .. } = x {
+                if !restricted(w, denom) {
+                    viol(out, "C06", "exit", "exit pays out by a marker transfer that the marker module refuses (denomination is not a restricted marker)", format!("{}: {:?} ; marker table {:?}", mode, x, w.chain.markers));
+                }
+            }
+        }
+    }
+}
+
 pub fn exit_probes(w: &World, book: &Book, cfg: &Cfg, st: &mut Stats, out: &mut Vec<Viol>) {
     let executor = cfg.executors.first().cloned();
     for (id, a) in &book.asks {
@@ -78,6 +94,7 @@ pub fn exit_probes(w: &World, book: &Book, cfg: &Cfg, st: &mut Stats, out: &mut 
                 tag(out, n0, &pop);
                 continue;
             }
+            unpayable_exit(w, &o, mode, st, out);
             let exp = expect_reverse_ask(a, a.size);
             // an approved ask returns the ENTIRE recorded approver amount
             let mut expd = Ledger::new();
@@ -121,6 +138,7 @@ pub fn exit_probes(w: &World, book: &Book, cfg: &Cfg, st: &mut Stats, out: &mut 
                 tag(out, n0, &pop);
                 continue;
             }
+            unpayable_exit(w, &o, mode, st, out);
             let mut expd = Ledger::new();
             add(&mut expd, &b.owner, &b.quote_denom, b.rem_quote() + b.rem_fee());
             let expd = close(expd);
@@ -175,8 +193,21 @@ pub fn auth_matrix(w: &World, h: &Hist, book: &Book, cfg: &Cfg, r: &mut Rng, st:
     let mut reqs: Vec<(String, Value, Option<(String, u128)>)> = vec![]; // (kind, msg, escrow needed)
     let asks: Vec<&Ask> = book.asks.values().collect();
     let bids: Vec<&Bid> = book.bids.values().collect();
-    let ask = if asks.is_empty() { None } else { Some(*r.pick(&asks)) };
-    let bid = if bids.is_empty() { None } else { Some(*r.pick(&bids)) };
+    let mut ask = if asks.is_empty() { None } else { Some(*r.pick(&asks)) };
+    let mut bid = if bids.is_empty() { None } else { Some(*r.pick(&bids)) };
+    // orders that have a twin - another order of the same side stored under another spelling of the same
+    // UUID (a legacy key and its hyphenated form), usually with another owner - are preferred: look-ups that
+    // try several spellings can mix the two up
+    let twin_asks: Vec<&Ask> = book.asks.iter().filter(|(k, _)| book.asks.keys().any(|k2| k2 != *k && uuid_hex(k2).is_some() && uuid_hex(k2) == uuid_hex(k))).map(|(_, a)| a).collect();
+    let twin_bids: Vec<&Bid> = book.bids.iter().filter(|(k, _)| book.bids.keys().any(|k2| k2 != *k && uuid_hex(k2).is_some() && uuid_hex(k2) == uuid_hex(k))).map(|(_, b)| b).collect();
+    if !twin_asks.is_empty() && r.chance(70) {
+        ask = Some(*r.pick(&twin_asks));
+        st.count("C05", "matrix_on_an_ask_with_a_twin_under_another_spelling");
+    }
+    if !twin_bids.is_empty() && r.chance(70) {
+        bid = Some(*r.pick(&twin_bids));
+        st.count("C05", "matrix_on_a_bid_with_a_twin_under_another_spelling");
+    }
     if let Some(a) = ask {
         reqs.push(("cancel_ask".into(), json!({"cancel_ask": {"id": a.id}}), None));
         reqs.push(("expire_ask".into(), json!({"expire_ask": {"id": a.id}}), None));
@@ -212,6 +243,12 @@ pub fn auth_matrix(w: &World, h: &Hist, book: &Book, cfg: &Cfg, r: &mut Rng, st:
     if let Some(b) = bid {
         senders.push(b.owner.clone());
     }
+    // owners of the other orders on the book (first the twins' owners)
+    let mut others: Vec<String> = twin_asks.iter().map(|a| a.owner.clone()).chain(twin_bids.iter().map(|b| b.owner.clone())).collect();
+    others.extend(book.asks.values().map(|a| a.owner.clone()).chain(book.bids.values().map(|b| b.owner.clone())));
+    let mut seen = std::collections::BTreeSet::new();
+    others.retain(|o| seen.insert(o.clone()));
+    senders.extend(others.into_iter().take(6));
     senders.extend(cfg.approvers.iter().cloned());
     senders.extend(cfg.executors.iter().cloned());
     if let Some(f) = &cfg.ask_fee {
